@@ -2,9 +2,12 @@
 Deductive part: the quoting lemma unquote(safename(s)) == s for every string (names of any characters), the purity of the
 writer (effect analysis).  The tree / constraint walks build and read nested dict values (outside the verifier's
 subset): bounded stand-in."""
-from contracts.api import contract, spec, lemma, TR, implies, iff
+from contracts.api import contract, spec, lemma, TR, implies, iff, first, rest, is_empty
+from contracts.spec_json import *
 from flamapy.metamodels.fm_metamodel.transformations.json_writer import safename as json_safename
 from flamapy.metamodels.fm_metamodel.transformations.json_reader import unquote as json_unquote
+from flamapy.metamodels.fm_metamodel.transformations.json_reader import parse_ast_constraint as json_parse_ast_constraint
+from flamapy.metamodels.fm_metamodel.transformations.json_writer import get_ctc_info as json_get_ctc_info
 
 
 @lemma
@@ -13,9 +16,19 @@ def lemma_json_quoting(s: str) -> bool:
     return json_unquote(json_safename(s)) == s
 
 
+@lemma
+def lemma_json_ctc_roundtrip(n: 'Node') -> bool:
+    """reading back what the writer wrote for a constraint tree gives that tree (both functions through their contracts)"""
+    return same_tree(json_parse_ast_constraint(json_get_ctc_info(n)), n) if json_tree(n) else True
+
+
 @contract(TR + 'json_reader.py', 'unquote', prop='C05')
 class JsonUnquote:
-    lemmas = ('lemma_json_quoting',)
+    doc_view = ('type', 'operands')
+    lemmas = ('lemma_json_quoting', 'lemma_dec_enc', 'lemma_enc_is_writer_doc', 'lemma_json_ctc_roundtrip')
+    reveal_in = ('lemma_json_quoting',)
+    as_function = True
+    induction = ('lemma_enc_is_writer_doc', 'lemma_dec_enc')
 
     def post(name, result):
         return result == (name[1:-1] if len(name) >= 2 and name.startswith('"') and name.endswith('"') else name)
@@ -23,5 +36,42 @@ class JsonUnquote:
 
 @contract(TR + 'json_writer.py', 'safename', prop='C05')
 class JsonSafename:
+    as_function = True
+
     def post_shape(name, result):
         return result == name or result == '"' + name + '"'
+
+
+# ------------------------------------------------------------------ the constraint walks of writer and reader
+@contract(TR + 'json_writer.py', 'get_ctc_info', prop='C05')
+class GetCtcInfo:
+    """the writer produces exactly the document the format defines for the tree"""
+    doc_view = ('type', 'operands')
+    result_kind = 'Element'
+    native = False
+
+    def pre(ast_node):
+        return json_tree(ast_node)
+
+    def post(ast_node, result):
+        return result == enc(ast_node)
+
+
+@contract(TR + 'json_reader.py', 'parse_ast_constraint', prop='C05')
+class ParseAstConstraint:
+    """on a writer document the reader returns the tree the format defines"""
+    doc_view = ('type', 'operands')
+    kinds = {'ctc_info': 'Element'}
+    raises = ('ParsingException',)
+    native = False
+
+    verifier_only = ('post',)
+
+    def pre(ctc_info):
+        return writer_doc(ctc_info)
+
+    def post(ctc_info, result):
+        return result == dec(ctc_info)
+
+    def post_tree(ctc_info, result):
+        return same_tree(result, dec(ctc_info))
